@@ -35,7 +35,25 @@ META = {
 }
 
 
+def _replay(ctx):
+    """bin/check C15 --replay FILE: run the behaviour stored in a replay file again on the real code"""
+    obj = json.load(open(ctx.replay))
+    beh = ((obj.get("replay") or {}).get("behaviour")) if isinstance(obj, dict) else None
+    if not beh:
+        ctx.inconclusive("replay file %s holds no behaviour" % ctx.replay)
+        return
+    path = os.path.join(ctx.work, "behaviours.json")
+    with open(path, "w") as f:
+        json.dump([beh], f)
+    rep = ctx.go_driver("bridge", env={"VERIF_BEHAVIOURS": path}, timeout=1500)
+    c = rep.get("counters", {}) if rep else {}
+    ctx.cover(traces_validated_against_impl=int(c.get("behaviours_conforming", 0)), evaluations=1)
+    ctx.sample({"replayed": ctx.replay, "behaviour": beh.get("id")})
+
+
 def run(ctx):
+    if ctx.replay:
+        return _replay(ctx)
     quick = ctx.quick
     ctx.assume("ideal hashing in the model: a square's DAH is identified with the block content")
     ctx.assume("consistent consensus blocks: one block per height, the network's header for a height carries its DAH")
